@@ -752,6 +752,50 @@ func C18(c *core.Ctx) {
 		c.Decide(nAdd > 0 && bad == "", "R18.8", "cost-bounded-before-addition", p.Pos(ru.Pos()), fmt.Sprintf("%d additions to an advertised cost, each behind 'advertised cost < infinity'", nAdd), "ribUpdate adds the link cost to "+bad+" before that cost was compared with infinity: the wire-valid cost 2^64-1 wraps around to 0, the destination is installed as a cost-0 route and re-advertised with cost 0")
 	}
 
+	// ---- R18.15 a next hop that enters an entry's cost column has its name on record. The RIB
+	// stores next hops as hashes and turns them back into names through Rib.neighbors when it
+	// builds the advertisement: Rib.Set reaches RibEntry.Set only after it has found the next
+	// hop's name in that map or stored it there — also when the destination's entry exists
+	// already. Otherwise the advertisement carries an empty next-hop name, the neighbours'
+	// poison reverse no longer recognises themselves, and routes loop after a link flap.
+	if set := c.Fn("R18.15", "dv/table", "Rib", "Set"); set != nil {
+		var eff []ssa.Instruction
+		for _, ci := range core.FindCallsDeep(set, core.CalleeID{Pkg: "dv/table", Recv: "RibEntry", Name: "Set"}) {
+			eff = append(eff, ci)
+		}
+		isNb := func(m ssa.Value) bool {
+			_, path := core.FieldPath(m)
+			return len(path) > 0 && path[len(path)-1] == "neighbors"
+		}
+		known := &core.Atom{Name: "next hop's name is on record", Match: func(cond ssa.Value) (int, int) {
+			ex, ok := core.Strip(cond).(*ssa.Extract)
+			if !ok || ex.Index != 1 {
+				return 0, 0
+			}
+			lk, ok := ex.Tuple.(*ssa.Lookup)
+			if !ok || !lk.CommaOk || !isNb(lk.X) {
+				return 0, 0
+			}
+			return 1, -1
+		}}
+		records := func(in ssa.Instruction) bool {
+			mu, ok := in.(*ssa.MapUpdate)
+			return ok && isNb(mu.Map)
+		}
+		if len(eff) == 0 {
+			c.Und("R18.15", "next-hop-name-on-record", p.Pos(set.Pos()), "Rib.Set no longer calls RibEntry.Set")
+		} else {
+			cut, _ := core.CutEdges(set, pos(known))
+			bad := ""
+			for _, e := range eff {
+				if path := core.ReachInstr(set, e, cut, records); path != nil {
+					bad = p.PathString(path)
+				}
+			}
+			c.Decide(bad == "", "R18.15", "next-hop-name-on-record", c.Pos(eff[0]), "every path to RibEntry.Set has found or stored the next hop's name in Rib.neighbors", "Rib.Set puts a next hop into an entry's cost column on a path that neither found nor stored the next hop's name in Rib.neighbors ("+bad+"): Advert() then emits an empty next-hop name for routes through it, the neighbours' poison reverse stops applying, and after a link flap the chosen next hop no longer lies on a shortest path")
+		}
+	}
+
 	// ---- R18.14 the RIB and the neighbour table identify a router by its name, not by the
 	// 64-bit hash of the name alone
 	{
